@@ -51,11 +51,58 @@ Section Proofs.
     - destruct Hin as [Heq|Hin]; [congruence|]. destruct (IH i Hin) as [o' [H1 H2]]. exists o'; auto.
   Qed.
 
+  Lemma map_seq_nth : forall (B : Type) (g : I -> B) (l : list I),
+    map g l = map (fun i => g (nth i l dflt)) (seq 0 (length l)).
+  Proof.
+    intros B g l. induction l as [|x r IH]; cbn; [reflexivity|].
+    f_equal. rewrite <- seq_shift, map_map. exact IH.
+  Qed.
+
   (* every schedule that runs each iteration yields exactly the sequential reference *)
   Theorem parfor_schedule_free : forall inputs sched, covers (length inputs) sched ->
     parfor body s0 dflt inputs sched = reference body s0 inputs.
   Proof.
     intros inputs sched [Hcov _]. unfold parfor, reference.
-    apply nth_error_ext_local.
-  Abort.
+    rewrite (map_seq_nth _ (fun x => Some (snd (body s0 x))) inputs).
+    apply map_ext_in. intros i Hi. apply in_seq in Hi.
+    assert (Hin : In i (map fst (writes body s0 dflt inputs sched))).
+    { rewrite writes_indices. apply Hcov. lia. }
+    destruct (lookup_some _ _ Hin) as [o [Hl Ho]]. rewrite Hl.
+    f_equal. eapply writes_values; eauto.
+  Qed.
+
+  (* consequences: thread-count / schedule independence, frame locality, permutation equivariance *)
+  Corollary parfor_any_two_schedules : forall inputs sc1 sc2,
+    covers (length inputs) sc1 -> covers (length inputs) sc2 ->
+    parfor body s0 dflt inputs sc1 = parfor body s0 dflt inputs sc2.
+  Proof. intros. rewrite !parfor_schedule_free; auto. Qed.
+
+  Lemma nth_reference : forall inputs i, i < length inputs ->
+    nth i (reference body s0 inputs) None = Some (snd (body s0 (nth i inputs dflt))).
+  Proof.
+    intros inputs. induction inputs as [|x r IH]; intros i Hi; cbn in *; [lia|].
+    destruct i as [|i]; [reflexivity|]. apply IH. lia.
+  Qed.
+
+  Corollary parfor_frame_local : forall inputs sched i, covers (length inputs) sched -> i < length inputs ->
+    nth i (parfor body s0 dflt inputs sched) None =
+    nth 0 (parfor body s0 dflt [nth i inputs dflt] (sched_serial 1)) None.
+  Proof.
+    intros inputs sched i Hc Hi. rewrite parfor_schedule_free by assumption.
+    rewrite nth_reference by assumption.
+    cbn. destruct (body s0 (nth i inputs dflt)) as [s' o] eqn:E. cbn. reflexivity.
+  Qed.
+
+  Corollary parfor_permutation : forall inputs sigma sched sched',
+    covers (length inputs) sched -> covers (length sigma) sched' ->
+    (forall j, In j sigma -> j < length inputs) ->
+    parfor body s0 dflt (map (fun j => nth j inputs dflt) sigma) sched' =
+    map (fun j => nth j (parfor body s0 dflt inputs sched) None) sigma.
+  Proof.
+    intros inputs sigma sched sched' Hc Hc' Hr.
+    rewrite parfor_schedule_free by (rewrite map_length; assumption).
+    rewrite (parfor_schedule_free inputs sched) by assumption.
+    unfold reference at 1. rewrite map_map. apply map_ext_in. intros j Hj.
+    now rewrite nth_reference by auto.
+  Qed.
 End Proofs.
